@@ -89,7 +89,7 @@ fn viol(frag: &mut Frag, prop: &str, key: &str, what: String, case: Value) {
     // argument, return or throws type takes "the rest of the buffer minus two
     // bytes" as unknown fields once all its declared fields were seen. Every
     // observation on a type whose decoding runs such a decoder is attributed to it.
-    if crate::case().keep && matches!(prop, "c02" | "c08" | "c09" | "c11" | "c12" | "c13") {
+    if crate::case().keep && matches!(prop, "c02" | "c08" | "c09" | "c11" | "c12" | "c13" | "c20") {
         if let Some(t) = case.get("target_idx").and_then(|v| v.as_u64()) {
             // (the async decoders do not have that code)
             let async_only = matches!(prop, "c09" | "c19") && key.contains("async_");
@@ -453,7 +453,7 @@ fn c20_one(t: usize, frag: &mut Frag) {
     if frag.samples.len() < 3 {
         frag.sample(json!({"target": tname(t), "expected_default": expected.render(200)}));
     }
-    let cj = || json!({"corpus": c.corpus, "config": c.config, "target": c.targets[t].name, "expected_default": expected.render(300)});
+    let cj = || json!({"corpus": c.corpus, "config": c.config, "target": c.targets[t].name, "target_idx": t, "expected_default": expected.render(300)});
     sub_mark(&format!("c20 {}", tname(t)));
     let d = match guarded(|| (o.default)()) {
         Ok(d) => d,
